@@ -156,10 +156,10 @@ class Real:
         import hy
 
         o = self.obs[s]
-        if o["status"] == "not-run":
-            self._open(s)
         M = self.mods[self.case["streams"][s]["mod"]]
         try:
+            if o["status"] == "not-run":
+                self._open(s)  # read_many is documented to return a Lazy without reading; an error here counts as a read error
             f = next(self.lazies[s])
         except StopIteration:
             o["status"] = "ok"
@@ -174,7 +174,7 @@ class Real:
         try:
             v = hy.eval(f, module=M)
         except Exception as e:
-            o["status"] = classify_exc(e) + "@eval"
+            o["status"] = classify_exc(e)
             o["phase"] = "eval"
             o["msg"] = "%s: %s" % (type(e).__name__, str(e)[:300])
             return True
@@ -272,13 +272,16 @@ def _compare(case, E, real):
         kw["text"] = text
         return (bucket, kw)
 
+    deferred = None
     for s, st in enumerate(case["streams"]):
         exp, got = E["streams"][s], real.obs[s]
         drv = st["driver"]
         tag = drv + ("+reused-reader" if st["reuse"] is not None else "")
         if exp["status"] == "not-run":
-            if got["status"] != "not-run":
-                raise RuntimeError("harness: stream %d ran although the model never launched it" % s)
+            if got["status"] != "not-run" and deferred is None:
+                # only possible when the launching stream went past a point where the model says it stops; that stream's
+                # own comparison names the cause, this is the fallback
+                deferred = fail("nested:stream-ran-although-its-launch-point-is-unreachable", stream=s)
             continue
         if drv == "step":
             for i, ef in enumerate(exp["forms"]):
@@ -299,6 +302,8 @@ def _compare(case, E, real):
                 return fail("%s:unexpected-syntax-error" % tag, stream=s, message=got["msg"], after_forms=len(got["forms"]), expected_forms=exp["nforms"])
             return fail("%s:%s" % (tag, got["status"]), stream=s, message=got["msg"], expected=exp["status"])
         if drv == "step":
+            if exp["status"] == "syntax-error" and got["phase"] != {"read": "read", "compile": "eval"}[exp["err"]["phase"]]:
+                return fail("%s:syntax-error-in-wrong-phase" % tag, stream=s, expected=exp["err"], actual=got["phase"], message=got["msg"])
             if len(got["forms"]) != len(exp["forms"]):
                 return fail("%s:form-count" % tag, stream=s, expected=len(exp["forms"]), actual=len(got["forms"]),
                             extra=got["forms"][len(exp["forms"]):][:2])
@@ -306,6 +311,8 @@ def _compare(case, E, real):
             return fail("%s:recorded-values-differ" % tag, stream=s, expected=exp["recs"], actual=got["recs"])
         if drv != "step" and exp["status"] == "ok" and exp["final"] != Mo.ANY and got["final"] != exp["final"]:
             return fail("%s:last-value-differs" % tag, stream=s, expected=exp["final"], actual=got["final"])
+    if deferred is not None:
+        return deferred
     # module tables
     for i, M in enumerate(real.mods):
         keys = sorted(getattr(M, "_hy_reader_macros", {}).keys())
@@ -338,8 +345,8 @@ def _compare(case, E, real):
                 msg = str(e)[:200]
             if got != ex:
                 if ex[0] == "syntax-error" and got[0] == "ok":
-                    why = "foreign" if name in json.dumps(case) else "never"
-                    return fail("reader-table:leak", stream=s, name=name, actual=got, note=why)
+                    return fail("reader-table:leak", stream=s, name=name, actual=got,
+                                note="after the run, this stream's reader reads #%s although nothing defined or required it for that reader" % name)
                 if ex[0] == "ok" and got[0] == "syntax-error":
                     return fail("reader-table:missing", stream=s, name=name, expected=ex, message=msg)
                 return fail("reader-table:wrong-result", stream=s, name=name, expected=ex, actual=got)
